@@ -711,8 +711,8 @@ func (x *Exec) assumeAllocated(v Val) {
 	top := fmt.Sprintf("(+ %s %d)", x.allocBase, x.allocN)
 	switch under(v.T).(type) {
 	case *types.Pointer, *types.Map, *types.Chan:
-		x.sc.assert(le(v.S, top))
+		x.assumeHere(le(v.S, top))
 	case *types.Slice:
-		x.sc.assert(le(app("s_reg", v.S), top))
+		x.assumeHere(le(app("s_reg", v.S), top))
 	}
 }
